@@ -3,12 +3,12 @@ CONSTANTS
   Producers = {"p1"}
   NMsgs <- Msgs2
   Budget = 2
-  MaxTurns = 5
-  Restarts = 1
-  Stops = 0
-  Pills = 0
+  MaxTurns = 4
+  Restarts = 0
+  Stops = 1
+  Pills = 1
   Defects = {"StopRace"}
   RankOf <- Ranks
 VIEW View
-INVARIANTS SingleHandler SingleOwner NoDuplicate HandledWereSent PerProducerFIFO NoStrand
+INVARIANTS SingleHandler SingleOwner NoDuplicate HandledWereSent PerProducerFIFO PostStopAtMostOnce
 CHECK_DEADLOCK FALSE
